@@ -475,23 +475,68 @@ func closedPrologue(p *core.Prog, la *lockAnalysis, fn *ssa.Function) (bool, str
 	if len(tests) == 0 {
 		return false, "no test of `closed` under the channel lock: after Close the method touches queues and Go channels that Close has torn down (a send on the nil packageCh blocks the reader goroutine forever)"
 	}
+	helpers := sensitiveHelpers(p, la, sensitive)
 	for _, b := range fn.Blocks {
 		for _, in := range b.Instrs {
-			fa, ok := in.(*ssa.FieldAddr)
-			if !ok || !sensitive[core.FieldOfAddr(fa)] || fa.X != ssa.Value(fn.Params[0]) {
+			what := ""
+			if fa, ok := in.(*ssa.FieldAddr); ok && sensitive[core.FieldOfAddr(fa)] && fa.X == ssa.Value(fn.Params[0]) {
+				what = core.FieldOfAddr(fa).Name()
+			}
+			if c, ok := in.(ssa.CallInstruction); ok {
+				if f := core.StaticCallee(c); f != nil && helpers[f] && len(c.Common().Args) > 0 && c.Common().Args[0] == ssa.Value(fn.Params[0]) {
+					what = "helper " + f.Name()
+				}
+			}
+			if what == "" {
 				continue
 			}
 			dom := false
 			for _, t := range tests {
 				notClosed := t.Block().Succs[1]
-				if len(notClosed.Preds) == 1 && notClosed.Dominates(fa.Block()) {
+				if len(notClosed.Preds) == 1 && notClosed.Dominates(in.Block()) {
 					dom = true
 				}
 			}
+			if _, isDefer := in.(*ssa.Defer); isDefer {
+				for _, t := range tests {
+					notClosed := t.Block().Succs[1]
+					if len(notClosed.Preds) == 1 && notClosed.Dominates(in.Block()) {
+						dom = true
+					}
+				}
+			}
 			if !dom {
-				return false, "a use of " + core.FieldOfAddr(fa).Name() + " is not dominated by the not-closed edge of the `closed` test"
+				return false, "a use of " + what + " is not dominated by the not-closed edge of the `closed` test"
 			}
 		}
 	}
 	return true, ""
+}
+
+// sensitiveHelpers: unexported *Channel methods that (transitively) touch
+// the queues or Go channels of their receiver.
+func sensitiveHelpers(p *core.Prog, la *lockAnalysis, sensitive map[*types.Var]bool) map[*ssa.Function]bool {
+	out := map[*ssa.Function]bool{}
+	for changed := true; changed; {
+		changed = false
+		for _, fn := range la.funcs {
+			rn := core.RecvNamed(fn)
+			if out[fn] || rn == nil || rn.Obj().Name() != "Channel" || token.IsExported(fn.Name()) || fn.Parent() != nil {
+				continue
+			}
+			for _, b := range fn.Blocks {
+				for _, in := range b.Instrs {
+					if fa, ok := in.(*ssa.FieldAddr); ok && sensitive[core.FieldOfAddr(fa)] && fa.X == ssa.Value(fn.Params[0]) {
+						out[fn], changed = true, true
+					}
+					if c, ok := in.(ssa.CallInstruction); ok {
+						if f := core.StaticCallee(c); f != nil && out[f] && !out[fn] {
+							out[fn], changed = true, true
+						}
+					}
+				}
+			}
+		}
+	}
+	return out
 }
